@@ -1299,3 +1299,6 @@ def workload(ctx):
               "IdentityMapper.map_call_with_kwargs", "IdentityMapper.map_polynomial",
               "CombineMapper.map_call_with_kwargs", "CombineMapper.map_if"):
         ctx.floor("handler:" + h, 50)
+
+
+RULE = RULE + '  Later additions: towers of 21 node families up to depth 100; plain mix-in bases; numeric arrays; handlers that raise once and a retry on the same mapper; handler sets that change between calls.'
